@@ -92,16 +92,32 @@ def fit_obs(handler, objs):
         ship = Ship(types[0][0])
         fit.ship = ship
         items.append(ship)
-        for t in types[1:4]:
-            m = ModuleHigh(t[0], state=State.offline)
+        # a second fit whose ship is targeted after the modules are fitted and running
+        fit2 = Fit(solar_system=solsys)
+        ship2 = Ship(types[0][0])
+        fit2.ship = ship2
+        items.append(ship2)
+        mods = []
+        for k, t in enumerate(types[1:4]):
+            m = ModuleHigh(t[0], state=State.offline if k == 0 else State.active)
             fit.modules.high.append(m)
             items.append(m)
+            mods.append(m)
+        for k, m in enumerate(mods):
+            if k % 2 == 0:
+                m.target = ship2
+        for m in mods[:1]:
+            m.state = State.active
         for it in items:
             for a in attr_ids:
                 try:
                     out.append(['ok', cl.canon(it.attrs[a])])
                 except Exception as e:  # noqa
                     out.append(['raise', type(e).__name__])
+            try:
+                out.append(['effects', sorted((int(e), bool(d.status)) for e, d in it.effects.items())])
+            except Exception as e:  # noqa
+                out.append(['raise', type(e).__name__])
     except Exception as e:  # noqa
         out.append(['setup-raise', type(e).__name__])
     return out
@@ -196,6 +212,11 @@ def writer_vs_reader(case, impl):
         d = cl.view_diff(r['writer'], r['reader'])
         if d:
             return 'update %d: writer and fresh reader differ: %s' % (k, d)
+        bw, br = r['writer'].get('behaviour', {}), r['reader'].get('behaviour', {})
+        for i in bw:
+            if bw[i] != br.get(i):
+                return ('update %d: effect %s behaves differently on writer and fresh reader '
+                        '(is_projectable, state, #local, #projected): %r vs %r' % (k, i, bw[i], br.get(i)))
         if r['fit_writer'] != r['fit_reader']:
             return 'update %d: fit on writer-backed and reader-backed source differ' % k
     return None
